@@ -185,10 +185,12 @@ fn node_order(n: usize, order: u8) -> Vec<usize> {
     v
 }
 
-/// record names; gene 9 (only ever added without terms) is unnamed: the shortest possible gene record
+/// record names
 pub fn rec_name(kind: usize, r: u32) -> String {
     match kind {
-        0 if r == 9 => String::new(),
+        // record 9 of every kind (only ever added without terms) is unnamed: the shortest possible record of its section,
+        // and the last one the independent encoder writes
+        _ if r == 9 => String::new(),
         // over-long gene symbol whose byte 255 falls inside a three-byte character (bytes 253..256)
         0 if r == 2 => "A".repeat(253) + "\u{20ac}" + "b",
         0 => format!("G{r}"),
@@ -467,7 +469,11 @@ pub fn check_c03(c: &Case) -> Check {
     Ok(())
 }
 fn check_c03_on(m0: &Model, ont: &Ontology) -> Check {
-    let m = m0.observed(ont);
+    // C03 defines n as the number of records linked to the term *after inheritance*: the direct terms of every record and
+    // the ancestor closure are taken from the read API (they are C02's / C01's to judge), the inheritance itself is
+    // recomputed here -- a record counts for a term iff one of its direct terms is the term or a descendant of it
+    let mut m = m0.observed(ont);
+    m.obs_linked = None;
     for t in 0..m.n {
         let h = ont.hpo(m.ids[t]).ok_or("term missing")?;
         let ic = h.information_content();
